@@ -8,3 +8,6 @@ pub(crate) use self::{
     group::Group,
     tag::{Tag, TagSliceExt},
 };
+
+#[cfg(hashbrown_verif)]
+pub(crate) use self::bitmask::BitMask as VerifBitMask;
